@@ -1,5 +1,5 @@
 """Shared rule functions over lib/Core/BuildEngine.cpp (used by C01, C02, C05, C06, C07)."""
-from sa.facts import AnalysisBroken, expr_str, qmatch, strip_casts, relpath, core
+from sa.facts import AnalysisBroken, expr_str, qmatch, strip_casts, relpath, core, expr_plain
 from sa import cfg
 from sa.cfg import BranchFacts, canon, cond_atoms
 from sa.flow import arg_nodes, mentions
@@ -735,14 +735,40 @@ def r_cancel_on_exit(prog, rep):
         w = cfg.path_exists(f, (head[0], head[1] - 1), lambda p, e, xp=cfg.pos_of(f, x): p == xp, avoid=call_pred(f, ENGINE + "::cancelRemainingTasks"))
         r.check(w is None, "executeTasks|return-false#%d" % i, "", "work loop abandoned without cancelling the remaining tasks", f, x)
     # the flag test dominates task activity in the iteration
-    tests = [b for b in f.blocks.values() if b.cond() is not None and "buildCancelled" in expr_str(b.cond())]
-    r.check(len(tests) == 1, "executeTasks|cancel-flag-tested", "", "expected one test of buildCancelled in the work loop", f)
+    # exit tests: `if (buildCancelled)` whose taken arm cancels and returns
+    tests = [b for b in f.blocks.values() if b.cond() is not None and b.term is not None and b.term.get("cls") == "IfStmt" and
+             expr_plain(b.effective_cond()) in ("buildCancelled", "buildCancelled.load()", "buildCancelled.operator bool()")]
+    r.check(len(tests) >= 1, "executeTasks|cancel-flag-tested", "%d exit test(s)" % len(tests), "the work loop never tests buildCancelled", f)
     if tests:
-        tpos = cfg.term_pos(f, tests[0].id)
+        tps = set(cfg.term_pos(f, b.id) for b in tests)
         for nm in ("Task::inputsAvailable", ENGINE + "::demandRule", ENGINE + "::processRuleScanRequest"):
             for c in f.calls(nm):
-                w = cfg.path_exists(f, (head[0], head[1] - 1), lambda p, e, cp=cfg.pos_of(f, c): p == cp, avoid=lambda p, e: p == tpos)
+                w = cfg.path_exists(f, (head[0], head[1] - 1), lambda p, e, cp=cfg.pos_of(f, c): p == cp, avoid=lambda p, e: p in tps)
                 r.check(w is None, "executeTasks|flag-before-%s" % nm.split("::")[-1], "", "work started in an iteration before the cancel flag is looked at", f, c)
+    # cancellation is honoured only at the iteration boundary: inside an iteration every queue is drained, so that no rule is left
+    # scanned-but-not-demanded (NeedsToRun / DoesNotNeedToRun) when cancelRemainingTasks -- which resets only scanning rules and
+    # rules with a task -- runs.  Any other read of the flag on the engine thread's work path cuts an iteration short.
+    work = [f] + [g for nm in ("processRuleScanRequest", "scanRule", "demandRule", "finishScanRequest", "processFinishedInputRequest") for g in
+                  [x for x in engine_functions(prog) if x.name.endswith("::" + nm) and not x.is_lambda]]
+    reads = []
+    for g in work:
+        for n in g.nodes:
+            if n.get("k") == "member" and n.get("n") == "buildCancelled":
+                p_ = g.parent_of(n)
+                while p_ is not None and p_.get("k") in ("cast", "call") and (p_.get("k") == "cast" or (p_.get("fn") or "").split("::")[-1] in ("operator bool", "load")):
+                    n, p_ = p_, g.parent_of(p_)
+                is_write = p_ is not None and ((p_.get("k") == "bin" and p_.get("op") == "=" and p_.get("l") == n["id"]) or
+                                               (p_.get("k") == "call" and p_.get("op") == "=" and p_.get("obj") == n["id"]))
+                if not is_write:
+                    reads.append((g, n))
+    cond_ids = set(x["id"] for b in tests for x in b.cond().walk())
+    head_blocks = set(b.id for b in tests if cfg.path_exists(
+        f, (head[0], head[1] - 1), lambda p, e, tp=cfg.term_pos(f, b.id): p == tp,
+        avoid=lambda p, e: cfg.elem_node(f, e) is not None and cfg.elem_node(f, e).get("k") == "call" and cfg.elem_node(f, e)["id"] not in cond_ids) is not None)
+    stray = [(g, n) for g, n in reads if not (g is f and any(any(x is n or x["id"] == n["id"] for x in b.cond().walk()) for b in tests if b.id in head_blocks))]
+    r.check(bool(reads) and not stray, "executeTasks|cancel-only-at-iteration-boundary", "%d read(s)" % len(reads),
+            "buildCancelled is consulted inside an iteration (%s): queues are left half-drained and scanned rules undemanded when the build is abandoned" %
+            ", ".join("%s:%s" % (g.name.split("::")[-1], n.get("ln")) for g, n in stray), f, stray[0][1] if stray else None)
     g = efn(prog, "build")
     bf = BranchFacts(g, kill="assign")
     rv = [n for n in g.nodes if n.get("k") == "return" and "result.value" in expr_str(n.child("e"))]
@@ -1076,6 +1102,21 @@ def r_waitfor_coverage(prog, rep):
     r.check(ok, "findCycle|all-scanning-rules", "", "cycle finder does not visit the scan record of every scanning rule", h)
 
 
+def scope_guards(prog, f):
+    """[(decl node, lambda function)] for the llbuild_defer scope guards declared in f."""
+    out = []
+    for d in f.nodes:
+        if d.get("k") == "decl":
+            for v in d["vars"]:
+                if "ScopeDefer" in f.db_types[v["ct"]] and "init" in v:
+                    for x in f.nodes[v["init"]].walk():
+                        if x.get("k") == "lambda":
+                            lf = prog.lambda_fn(x)
+                            if lf is not None:
+                                out.append((d, lf))
+    return out
+
+
 def r_epoch_persist(prog, rep):
     """shared by C01, C03, C04, C05: results committed by a failed/cancelled build are stamped with the new epoch;
     if that epoch is not persisted too, a restarted engine re-uses it and the strict staleness test misses changes."""
@@ -1083,7 +1124,7 @@ def r_epoch_persist(prog, rep):
     bf = BranchFacts(f, kill="assign")
     ex = f.calls(ENGINE + "::executeTasks")
     sci = f.calls("BuildDB::setCurrentIteration")
-    if len(ex) != 1 or len(sci) != 1:
+    if len(ex) != 1 or len(sci) > 1:
         raise AnalysisBroken("build(): executeTasks=%d setCurrentIteration=%d" % (len(ex), len(sci)))
     r = rep.rule("R-EPOCH-PERSIST",
                  "on every path from the epoch increment to the end of build() the current epoch is written to the database when "
@@ -1091,6 +1132,27 @@ def r_epoch_persist(prog, rep):
     inc = [n for n in f.nodes if n.get("k") == "un" and n["op"] == "++" and expr_str(n.child("e")) == "currentEpoch"]
     if len(inc) != 1:
         raise AnalysisBroken("build(): %d epoch increments" % len(inc))
+    if not sci:
+        # not in build()'s own body: a scope guard (llbuild_defer) that runs on every exit is an equally good place for *this* rule
+        guards = scope_guards(prog, f)
+        hit = [(d, lf, lf.calls("BuildDB::setCurrentIteration")) for d, lf in guards if lf.calls("BuildDB::setCurrentIteration")]
+        if len(hit) != 1 or len(hit[0][2]) != 1:
+            r.violation("build|persists-current-epoch", "build() never writes the current epoch to the attached database", f)
+            r.violation("build|epoch-write-unconditional", "no epoch write", f)
+            r.violation("build|epoch-written-on-every-path", "no epoch write", f)
+            return
+        d, lf, cs = hit[0]
+        a = arg_nodes(cs[0])
+        r.check(expr_str(core(a[0])) == "currentEpoch", "build|persists-current-epoch", "", "setCurrentIteration is given %s" % expr_str(a[0]), lf, cs[0])
+        bl = BranchFacts(lf, kill="assign")
+        st = facts_at(bl, cs[0])
+        w = cfg.path_exists_feasible(lf, cfg.entry_pos(lf), cfg.is_exit, avoid=lambda p, e, sp=cfg.pos_of(lf, cs[0]): p == sp) if hasattr(cfg, "path_exists_feasible") else None
+        only_db = all("db" in a_ for a_, _p in st)
+        r.check(only_db, "build|epoch-write-unconditional", "%s" % sorted(st), "the deferred epoch write depends on %s" % sorted(st), lf, cs[0])
+        dv = d["vars"][0]["did"]
+        w = cfg.path_exists(f, cfg.pos_of(f, inc[0]), cfg.is_exit, avoid=lambda p, e: isinstance(e, dict) and e.get("x") == "dtor" and e.get("did") == dv)
+        r.check(w is None, "build|epoch-written-on-every-path", "deferred", "a path from the epoch increment leaves build() without running the guard that writes the epoch", f, d)
+        return
     a = arg_nodes(sci[0])
     r.check(expr_str(core(a[0])) == "currentEpoch", "build|persists-current-epoch", "", "setCurrentIteration is given %s" % expr_str(a[0]), f, sci[0])
     st = facts_at(bf, sci[0])
@@ -1172,3 +1234,220 @@ def r_discovered_demanded(prog, rep):
     pb = g.calls("DependencyKeyIDs::push_back")
     ok = len(pb) == 1 and [expr_str(core(x)) for x in arg_nodes(pb[0])][1:] == ["false", "false"]
     r.check(ok, "taskDiscoveredDependency|plain-dependency", "", "a discovered dependency is recorded as order-only / single-use", g)
+
+
+def _is_written(f, n):
+    """is the lvalue expression n stored to (assignment target, ++/--, address taken, passed on as a non-const reference)?"""
+    cur = n
+    while True:
+        p = f.parent_of(cur)
+        if p is None:
+            return False
+        k = p.get("k")
+        if k == "cast" or (k == "other" and len(list(p.children())) == 1 if hasattr(p, "children") else False):
+            cur = p
+            continue
+        if k == "bin" and p.get("op", "").endswith("=") and p["op"] not in ("==", "!=", "<=", ">="):
+            return p.get("l") == cur["id"]
+        if k == "call" and p.get("op", "").endswith("=") and p.get("op") not in ("==", "!=", "<=", ">=") and p.get("obj") == cur["id"]:
+            return True
+        if k == "un" and p.get("op") in ("++", "--", "&", "++post", "--post", "post++", "post--"):
+            return True
+        if k in ("call", "construct") and cur["id"] in p.get("args", []):
+            i = p["args"].index(cur["id"])
+            pt = p.get("pt") or []
+            t = f.db_types[pt[i]] if i < len(pt) else ""
+            return "&" in t and "const" not in t
+        if k == "decl":
+            return any(v.get("init") == cur["id"] and "&" in f.db_types[v["t"]] and "const" not in f.db_types[v["t"]] for v in p.get("vars", []))
+        return False
+
+
+def r_parallel_vectors(prog, rep):
+    r = rep.rule("R-PARALLEL-VECTORS", "DependencyKeyIDs keeps its dependency keys and their flag bytes in two parallel vectors: every member function applies "
+                                       "the same sequence of mutations (same operation, same position) to both, so entry i of one always describes entry i "
+                                       "of the other", floor=7)
+    import re as _re
+    MUT = {"clear", "erase", "resize", "push_back", "emplace_back", "insert", "pop_back", "assign", "swap", "emplace", "shrink_to_fit"}
+    ELEM = {"operator[]", "at", "front", "back", "data"}
+    meths = [f for f in prog.functions.values() if f.cls.endswith("DependencyKeyIDs") and not f.is_lambda]
+    if len(meths) < 10:
+        raise AnalysisBroken("DependencyKeyIDs: only %d member functions found" % len(meths))
+
+    def norm(s):
+        return _re.sub(r"\b(keys|flags)\b", "V", s)
+    n_mut = 0
+    for f in sorted(meths, key=lambda f: f.line):
+        seq = {"keys": [], "flags": []}
+        for n in f.nodes:
+            if n.get("k") != "call" or "obj" not in n:
+                continue
+            o = expr_plain(n.child("obj")).replace("this->", "")
+            if o not in ("keys", "flags"):
+                continue
+            nm = (n.get("fn") or "").split("::")[-1]
+            if nm in MUT:
+                args = [norm(expr_plain(a)) for a in arg_nodes(n) if a is not None]
+                seq[o].append((nm,) if nm in ("push_back", "emplace_back") else (nm,) + tuple(args))
+            elif nm in ELEM and not n.get("cm") and _is_written(f, n):
+                seq[o].append(("elem",) + tuple(norm(expr_plain(a)) for a in arg_nodes(n) if a is not None))
+        if not seq["keys"] and not seq["flags"]:
+            continue
+        n_mut += 1
+        r.check(seq["keys"] == seq["flags"], "DependencyKeyIDs::%s|lockstep" % f.name.split("::")[-1], "%d mutation(s)" % len(seq["keys"]),
+                "keys mutated by %s but flags by %s" % (seq["keys"], seq["flags"]), f)
+    if n_mut < 6:
+        raise AnalysisBroken("DependencyKeyIDs: only %d mutating member functions found (clear, clean, resize, set, push_back, append expected)" % n_mut)
+    # const element readers pair keys[n] with flags[n]: operator[] is checked by R-SINGLEUSE (field order); here: both read the same index
+    g = prog.fn("DependencyKeyIDs::operator[]")
+    idx = set()
+    for n in g.nodes:
+        if n.get("k") == "call":
+            nm = (n.get("fn") or "").split("::")[-1]
+            if nm in ("operator[]", "orderOnly", "singleUse"):
+                idx.add(tuple(expr_plain(a) for a in arg_nodes(n) if a is not None))
+    r.check(len(idx) == 1, "DependencyKeyIDs::operator[]|same-index", "", "operator[] reads key and flags at different positions: %s" % sorted(idx), g)
+    # the size of the set is the size both vectors share: resize/clear handled above; size() and empty() may use either
+
+
+def r_outstanding_count(prog, rep):
+    r = rep.rule("R-OUTSTANDING-COUNT", "numOutstandingUnfinishedTasks counts the tasks handed inputsAvailable whose completion the engine thread has not yet taken off "
+                                        "finishedTaskInfos: one increment per dispatch, one decrement per completion popped, a bulk discard subtracts the number "
+                                        "discarded; nothing else writes the counter (a completion dropped uncounted leaves the drain waiting forever)", floor=5)
+    CNT, Q = "numOutstandingUnfinishedTasks", "finishedTaskInfos"
+    writes, removes = [], []
+    for f in engine_functions(prog):
+        for n in f.nodes:
+            k = n.get("k")
+            if k == "un" and n.get("op", "").strip("post") in ("++", "--") and expr_plain(n.child("e")) == CNT:
+                writes.append((f, n, n["op"].replace("post", "")))
+            elif k == "bin" and n.get("op", "").endswith("=") and n["op"] not in ("==", "!=", "<=", ">=") and expr_plain(n.child("l")) == CNT:
+                writes.append((f, n, n["op"]))
+            elif k == "call" and "obj" in n and expr_plain(n.child("obj")) == Q and (n.get("fn") or "").split("::")[-1] in \
+                    ("pop_back", "clear", "erase", "resize", "swap", "pop_front", "assign", "shrink_to_fit"):
+                removes.append((f, n, (n.get("fn") or "").split("::")[-1]))
+    kinds = sorted(op for _f, _n, op in writes)
+    r.check(kinds == ["++", "--", "--", "-="], "counter|writers", "%s" % kinds, "the counter is written by %s (expected one ++, two --, one -=)" % kinds)
+    rk = sorted(op for _f, _n, op in removes)
+    r.check(rk == ["clear", "clear", "pop_back"], "finished-queue|removers", "%s" % rk, "completions are taken off the finished queue by %s (expected pop_back, clear, clear)" % rk)
+    ex = efn(prog, "executeTasks")
+    cr = efn(prog, "cancelRemainingTasks")
+    # ++ : once per dispatch
+    incs = [(f, n) for f, n, op in writes if op == "++"]
+    ia = [c for c in ex.calls() if (c.get("fn") or "").endswith("Task::inputsAvailable")]
+    ok = len(incs) == 1 and incs[0][0] is ex and len(ia) == 1
+    if ok:
+        pi, pa = ex.elem_pos()[incs[0][1]["id"]], ex.elem_pos()[ia[0]["id"]]
+        # every path from the dispatch reaches the increment before the next dispatch or an exit, and vice versa only one increment per dispatch
+        ok = cfg.path_exists(ex, pa, lambda p, e: e == "EXIT" or p == pa, avoid=lambda p, e: p == pi) is None and \
+            cfg.path_exists(ex, pi, lambda p, e: p == pi, avoid=lambda p, e: p == pa) is None
+    r.check(ok, "executeTasks|one-increment-per-dispatch", "", "inputsAvailable dispatch and ++%s are not one-to-one" % CNT, ex)
+    # -- : once per pop_back
+    pops = [(f, n) for f, n, op in removes if op == "pop_back"]
+    decs = [(f, n) for f, n, op in writes if op == "--"]
+    ok = len(pops) == 1 and pops[0][0] is ex and all(f is ex for f, _ in decs)
+    w1 = w2 = None
+    if ok:
+        pp = ex.elem_pos()[pops[0][1]["id"]]
+        dps = set(ex.elem_pos()[n["id"]] for _f, n in decs)
+        # the popped pointer: null-initialised, assigned only from finishedTaskInfos.back() right before the pop; the null test
+        # `if (!taskInfo) break;` therefore splits "nothing popped" (break) from "one completion taken" (its false successor)
+        taken = set()
+        for n in ex.nodes:
+            if n.get("k") == "if" and expr_plain(n.child("c")).replace(" ", "") in ("!taskInfo", "(!taskInfo)", "(taskInfo==nullptr)") and \
+                    [x.get("k") for x in n.child("then").walk() if x.get("k") != "compound"] == ["break"]:
+                for b in ex.blocks.values():
+                    if b.term is not None and b.term.get("cls") == "IfStmt" and b.cond() is not None and b.cond()["id"] == n["c"] and len(b.succs) == 2:
+                        taken.add(b.succs[1])
+        asg = [n for n in ex.nodes if n.get("k") == "bin" and n["op"] == "=" and expr_plain(n.child("l")) == "taskInfo"]
+        decl0 = [v for n in ex.nodes if n.get("k") == "decl" for v in n.get("vars", []) if v.get("n") == "taskInfo" and "init" in v and
+                 core(ex.nodes[v["init"]]).get("k") == "null"]
+        src_ok = len(taken) == 1 and bool(decl0) and len([a for a in asg if expr_plain(a.child("r")) == Q + ".back()"]) == 1 and \
+            all(expr_plain(a.child("r")) in (Q + ".back()", "readyTaskInfos.front()") for a in asg) and \
+            any(ex.elem_pos()[a["id"]][0] == pp[0] for a in asg)
+        w1 = w2 = None
+        if src_ok:
+            tk = list(taken)[0]
+            w1 = cfg.path_exists(ex, (tk, -1), lambda p, e: e == "EXIT" or (p[0] == tk and p[1] == 0 and False), avoid=lambda p, e: p in dps)
+            if w1 is None:
+                # ... nor come round to take another completion uncounted
+                w1 = cfg.path_exists(ex, (tk, -1), lambda p, e: p == pp, avoid=lambda p, e: p in dps)
+            for d in dps:
+                w2 = w2 or cfg.path_exists(ex, d, lambda p, e: p in dps, avoid=lambda p, e: p[0] == tk)
+        ok = src_ok and w1 is None and w2 is None
+    r.check(ok, "executeTasks|one-decrement-per-completion", "", "a popped completion is not counted exactly once (uncounted path: %s, double count: %s)" % (w1, w2), ex, path=w1 or w2)
+    # -= : bulk discard in the cancellation drain
+    subs = [(f, n) for f, n, op in writes if op == "-="]
+    clears = [(f, n) for f, n, op in removes if op == "clear"]
+    ok = len(subs) == 1 and subs[0][0] is cr and expr_plain(subs[0][1].child("r")) == Q + ".size()" and all(f is cr for f, _ in clears) and len(clears) == 2
+    if ok:
+        ps = cr.elem_pos()[subs[0][1]["id"]]
+        bf = BranchFacts(cr, kill="assign")
+        ls = LockSets(cr)
+        paired = [n for _f, n in clears if cfg.dominated_by(cr, cr.elem_pos()[n["id"]], lambda p_, e_: p_ == ps)[0]
+                  and not has(facts_at(bf, n), CNT, True, ("==", "0"))]
+        final = [n for _f, n in clears if n not in paired]
+        ok = len(paired) == 1 and len(final) == 1 and "finishedTaskInfosMutex" in (ls.held_at_node(paired[0]) or set()) and \
+            "finishedTaskInfosMutex" in (ls.held_at_node(subs[0][1]) or set()) and \
+            has(facts_at(bf, final[0]), CNT, True, ("==", "0"))
+        if ok:
+            pc = cr.elem_pos()[paired[0]["id"]]
+            # after the subtraction the discard always follows, with no other change to the queue (or release of its mutex) in between
+
+            def touches_queue(p_, e_):
+                x = cfg.elem_node(cr, e_)
+                return p_ != pc and x is not None and x.get("k") == "call" and "obj" in x and expr_plain(x.child("obj")) == Q and not x.get("cm")
+            ok = cfg.path_exists(cr, ps, lambda p_, e_: e_ == "EXIT" or p_ == ps, avoid=lambda p_, e_: p_ == pc) is None and \
+                cfg.path_exists(cr, ps, touches_queue, avoid=lambda p_, e_: p_ == pc) is None and \
+                cfg.path_exists(cr, ps, lambda p_, e_: isinstance(e_, dict) and e_.get("x") == "dtor", avoid=lambda p_, e_: p_ == pc) is None
+    r.check(ok, "cancelRemainingTasks|bulk-discard-subtracts-size", "", "the cancellation drain discards queued completions without subtracting their number "
+            "(under the queue mutex), or clears the queue while tasks are still outstanding", cr)
+
+
+def r_scan_waits(prog, rep):
+    r = rep.rule("R-SCAN-WAITS", "a scan moves past a recorded input (order-only or not) only when that input has been scanned and is available; otherwise the request is "
+                                 "parked on the input's scan record / running task, which is the wait-for edge the cycle finder and the wake-up rely on", floor=4)
+    f = efn(prog, "processRuleScanRequest")
+    bf = BranchFacts(f, kill="assign")
+    adv = [n for n in f.nodes if n.get("k") == "un" and n.get("op", "").replace("post", "") == "++" and expr_plain(n.child("e")) == "request.inputIndex"]
+    def suspended_when(var, site, envs):
+        """some `if (...) { ...; return; }` dominating `site` is taken for every listed valuation with var == false"""
+        for n in f.nodes:
+            if n.get("k") != "if" or not any(x.get("k") == "ref" and x.get("n") == var for x in n.child("c").walk()):
+                continue
+            if not any(x.get("k") == "return" for x in n.child("then").walk()):
+                continue
+            marks = set(f.elem_pos()[x["id"]] for x in n.child("c").walk() if x["id"] in f.elem_pos())
+            if not cfg.dominated_by(f, f.elem_pos()[site["id"]], lambda p_, e_: p_ in marks)[0]:
+                continue
+            if all(cfg.bool_eval(f, n.child("c"), dict(env, **{var: False})) is True for env in envs):
+                return True
+        return False
+    OO = "request.orderOnly"
+    ok = len(adv) == 1 and suspended_when("isAvailable", adv[0], [{OO: True}, {OO: False}]) and suspended_when("isScanned", adv[0], [{OO: True}, {OO: False}])
+    r.check(ok, "processRuleScanRequest|advance-only-past-available-input", "", "the scan index advances past an input that is not known to be scanned and available", f,
+            adv[0] if adv else None)
+    for what, var, callee, park in (("scanned", "isScanned", "scanRule", "getPendingScanRecord"), ("available", "isAvailable", "demandRule", "getPendingTaskInfo")):
+        decl = [v for n in f.nodes if n.get("k") == "decl" for v in n.get("vars", []) if v.get("n") == var and "init" in v]
+        ok = len(decl) == 1 and (core(f.nodes[decl[0]["init"]]).get("fn") or "").endswith(callee) and \
+            expr_plain(arg_nodes(core(f.nodes[decl[0]["init"]]))[0]) == "inputRuleInfo"
+        ws = [n for n in f.nodes if n.get("k") == "bin" and n["op"].endswith("=") and n["op"] not in ("==", "!=") and expr_plain(n.child("l")) == var]
+        r.check(ok and not ws, "processRuleScanRequest|%s-is-%s-of-input" % (var, callee), "", "%s is not the result of %s(inputRuleInfo)" % (var, callee), f)
+        # the parking site: reached exactly when the flag is false, pushes this request, returns
+        pk = [c for c in f.calls("push_back") if park in expr_str(c.child("obj")) and "deferredScanRequests" in expr_str(c.child("obj"))]
+        ok = len(pk) == 1 and expr_plain(arg_nodes(pk[0])[0]) == "request"
+        if ok:
+            st = facts_at(bf, pk[0])
+            ok = (var, False) in st
+            pos = f.elem_pos()[pk[0]["id"]]
+            # after parking the function returns without advancing
+            ok = ok and cfg.path_exists(f, pos, lambda p, e: bool(adv) and p == f.elem_pos()[adv[0]["id"]]) is None
+        r.check(ok, "processRuleScanRequest|parked-when-not-%s" % what, "", "the request is not parked (and the scan suspended) exactly when the input is not %s" % what, f)
+    fin = [c for c in f.calls() if (c.get("fn") or "").endswith("finishScanRequest")]
+    ok = len(fin) == 2
+    for c in fin:
+        a1 = expr_plain(arg_nodes(c)[1])
+        if "NeedsToRun" in a1 and "DoesNot" not in a1:
+            st = facts_at(bf, c)
+            ok = ok and suspended_when("isAvailable", c, [{OO: False}]) and suspended_when("isScanned", c, [{OO: False}]) and has(st, "orderOnly", False)
+    r.check(ok, "processRuleScanRequest|input-rebuilt-needs-available-value-input", "", "InputRebuilt is decided for an input that is order-only or not yet available", f)
